@@ -794,6 +794,30 @@ def generics():
             out.append(case("gen:bounded:%s:get:%s" % (rname, tname), "type", bounded_world([Decl(ty_, "r0", MCall(recv(), "get"))]), "T.get() read as %s" % tname))
         out.append(case("gen:bounded:%s:deep" % rname, "type", bounded_world([Decl(TY["int"], "r0", Fld(Fld(recv(), "item"), "weight")), Expr(FAsg(Fld(recv(), "item"), "weight", I(2)))]), "T.item.weight"))
         out.append(case("gen:bounded:%s:deep:bad" % rname, "type", bounded_world([Expr(FAsg(Fld(recv(), "item"), "weight", S("s")))]), "string into T.item.weight"))
+    # overloads that differ in their result type, called by bare name / through this / through a variable inside the class: the
+    # result type is the one of the overload the arguments select, whatever the declaration order
+    def ov_world(stmts, order):
+        ms = [Method("pick", [Param(TY["str"], "s")], TY["int"], [Ret(I(1))]), Method("pick", [Param(TY["int"], "n")], VOID, []),
+              Method("name", [Param(TY["str"], "s")], TY["str"], [Ret(Var("s"))]), Method("name", [Param(TY["int"], "n")], TY["int"], [Ret(Var("n"))])]
+        ms = [ms[i] for i in order]
+        w = World().fill("main", [Decl(C("Ov"), "ov", New("Ov")), Expr(MCall(Var("ov"), "use"))])
+        w.classes.append(Class("Ov", methods=ms + [Method("takeInt", [Param(TY["int"], "v")], TY["int"], [Ret(Var("v"))]), Method("use", [], TY["int"], pre() + stmts + [Ret(I(0))])],
+                               ctors=[Ctor([], [], default=True)]))
+        return w
+    for oname, order in (("fwd", (0, 1, 2, 3)), ("rev", (1, 0, 3, 2))):
+        for cname, call in (("bare", lambda m, a: MCall(This(), m, a, bare=True)), ("this", lambda m, a: MCall(This(), m, a)), ("var", lambda m, a: MCall(Var("me"), m, a))):
+            pre_v = [Decl(C("Ov"), "me", New("Ov"))] if cname == "var" else []
+            for aname, arg in (("int", lambda: I(1)), ("str", lambda: S("s"))):
+                tag = "%s:%s:%s" % (oname, cname, aname)
+                out.append(case("ovl:init-int:" + tag, "type", ov_world(pre_v + [Decl(TY["int"], "r0", call("pick", arg()))], order), "int r0 = pick(%s)" % aname))
+                out.append(case("ovl:assign:" + tag, "type", ov_world(pre_v + [Decl(TY["int"], "r0", I(0)), Expr(Asg("r0", call("pick", arg())))], order), "r0 = pick(%s)" % aname))
+                out.append(case("ovl:operand:" + tag, "type", ov_world(pre_v + [Decl(TY["int"], "r0", Bin("+", call("pick", arg()), I(2)))], order), "pick(%s) + 2" % aname))
+                out.append(case("ovl:arg:" + tag, "type", ov_world(pre_v + [Decl(TY["int"], "r0", MCall(This(), "takeInt", call("pick", arg()), bare=True))], order), "takeInt(pick(%s))" % aname))
+                out.append(case("ovl:return:" + tag, "type", ov_world(pre_v + [Ret(call("pick", arg()))], order), "return pick(%s)" % aname))
+                out.append(case("ovl:stmt:" + tag, "type", ov_world(pre_v + [Expr(call("pick", arg()))], order), "pick(%s);" % aname))
+                out.append(case("ovl:name-str:" + tag, "type", ov_world(pre_v + [Decl(TY["str"], "r0", call("name", arg()))], order), "string r0 = name(%s)" % aname))
+                out.append(case("ovl:name-int:" + tag, "type", ov_world(pre_v + [Decl(TY["int"], "r0", call("name", arg()))], order), "int r0 = name(%s)" % aname))
+                out.append(case("ovl:loop:" + tag, "type", ov_world(pre_v + [For(Decl(TY["int"], "i", I(0)), Bin("<", Var("i"), call("pick", arg())), Asg("i", Bin("+", Var("i"), I(1))), [])], order), "i < pick(%s)" % aname))
     return out
 
 
